@@ -173,7 +173,8 @@ VOICE_INIT = "sut-raised:TypeError@musicanalysis/voice_separation.py:__init__"
 
 
 def strat_voices(tier):
-    return G.rows_spec(tier, 0, 127, zero="some", maxn=60 if tier == "quick" else 300)
+    # voice separation is the slow one (about 30 ms per 100 notes, both modes are run): sizes are skewed small
+    return G.rows_spec(tier, 0, 127, zero="some", maxn=60 if tier == "quick" else 300, sizes=[3, 6, 6, 12, 12, 24, 24, 60, 60, 300])
 
 
 def _zero_rows_by_onset(spec):
@@ -537,7 +538,7 @@ SUBCHECKS = [
         "voices",
         oracle_voices,
         strategy=strat_voices,
-        budget={"quick": 100, "thorough": 1500},
+        budget={"quick": 100, "thorough": 1000},
         rule="note arrays as above with pitches 0..127, both values of monophonic_voices; non-trivial = at least 8 rows with at least 3 pitch classes",
         known={
             "voices-lone-zero-length-note": known_voices_lone_zero,
